@@ -33,6 +33,58 @@ CLAIMED = {
              'non-fatally, nothing when empty (teardown_report), release/saturation/death leave every sequence (leaves_on_release, '
              'leaves_on_saturation, leaves_on_death). Correspondence as C05 with `completed` after every step and `killseq` at every position.',
         ref='DESIGN.md §4 C06', technique='Lean 4 proof + model/implementation correspondence'),
+    'C02': dict(
+        text='Theorems: find returns the matching expectation of least cost, the most recently created on ties (find_min_newest, '
+             'find_eq_some_iff via IsDesignated.unique); without sequences simply the newest match (no_sequences_newest); frame: only '
+             'the handler record/count changes, all actions belong to it, other objects and other functions/overloads untouched (C02_frame). '
+             'Routing of an expectation to its per-function list is C++ overload resolution: assumed by the model, exercised by the harness '
+             '(2 mock classes, 4 functions incl. an overload pair).',
+        ref='DESIGN.md §4 C02', technique='Lean 4 proof (loop refinement + frame) + model/implementation correspondence'),
+    'C03': dict(
+        text='Theorems: is_satisfied/is_saturated answers are count>=lo / count=hi (sat_answer, satd_answer, monitor_answers); an accepted '
+             'call advances the count by one and moves the handler to the saturated list exactly at count=hi (saturation_step), after which it '
+             'is never designated (not_active_not_handler); beyond hi: one fatal report naming exactly the saturated matches (beyond_hi); '
+             'inverted RT_TIMES leaves nothing behind (rt_times_inverted*). count<=hi for all reachable worlds: invariant in Props/C14. '
+             'Correspondence: all 0<=L<=H<=3, inf, inverted, static forms, alone/stacked.',
+        ref='DESIGN.md §4 C03', technique='Lean 4 proof + model/implementation correspondence'),
+    'C04': dict(
+        text='Theorems: release reports exactly one non-fatal unfulfilled iff not reported, attached and count<lo (release_report, '
+             'isUnfulfilled_iff), satisfied/reported/detached expectations are silent (satisfied_silent, reported_silent, detached_silent), '
+             'mock destruction reports pending ones once and detaches all (decommission_spec), moves are silent, a released expectation '
+             'cannot report again (release_once).',
+        ref='DESIGN.md §4 C04', technique='Lean 4 proof (induction over the decommission loop) + model/implementation correspondence'),
+    'C07': dict(
+        text='Theorems: a call designated to a forbid is exactly one fatal forbidden report with that expectation and the arguments, no action, '
+             'no OK, no count change (forbid_report, forbid_no_action_no_ok); always satisfied+saturated, silent at end (forbid_flags, '
+             'forbid_silent_at_end); the reported flag is invisible to matching/ordering so the n-th forbidden call behaves like the first '
+             '(forbid_repeat). The "as if it had never existed" erasure simulation is validated by the correspondence only (not proved).',
+        ref='DESIGN.md §4 C07', technique='Lean 4 proof + model/implementation correspondence'),
+    'C08': dict(
+        text='Theorems: WITH clauses evaluated in order up to the first failing (with_short_circuit, matches_iff); side effects once each in '
+             'order then RETURN/THROW once, or stop at the first throwing effect (actions_shape); full event log of an accepted call '
+             '(eval_log_shape); a throwing call still counts (throwing_call_counts); actions belong to the handler only (C02_frame).',
+        ref='DESIGN.md §4 C08', technique='Lean 4 proof + model/implementation correspondence'),
+    'C13': dict(
+        text='Theorems: unexpected destruction iff no live requirement (unexpected_iff_none); with requirements alive nothing but sequence '
+             'reports and EACH requirement becomes died (expected_destruction via notify_fold); still-alive once and forgotten by the object '
+             '(still_alive, forgotten_by_object); copies/moves do not inherit, assignment keeps (copies_do_not_inherit, assign_keeps).',
+        ref='DESIGN.md §4 C13', technique='Lean 4 proof (induction over the monitor chain) + model/implementation correspondence'),
+    'C15': dict(
+        text='Theorems: every report of a call is fatal, every report of any other operation non-fatal (call_reports_fatal, '
+             'destructor_reports_nonfatal: case analysis over all 23 operations); structure of the no-match listing: saturated matches or '
+             'else every live expectation newest first with rejecting parameters / first failing WITH (nomatch_listing, tried_entry, '
+             'failingParams_spec). Message wording beyond the parsed structure is not compared.',
+        ref='DESIGN.md §4 C15', technique='Lean 4 proof + model/implementation correspondence on parsed reports'),
+    'C16': dict(
+        text='Theorems: an accepted call yields exactly one OK naming the handler, a rejected one none (ok_exactly_one); no other operation '
+             'reports OK (only_calls_report_ok); set_reporter answers the previous reporter and all later events go to the new one '
+             '(reporter_exchange, reports_go_to_installed).',
+        ref='DESIGN.md §4 C16', technique='Lean 4 proof + model/implementation correspondence'),
+    'C17': dict(
+        text='Theorems: accepted call => exactly one trace record to the head of the live-tracer chain with handler, arguments, result '
+             '(trace_one_per_accepted); no tracer => no trace (no_tracer_no_trace); non-calls never trace (only_calls_trace); tracer chain '
+             'push/remove (tracer_stack, nested_restore).',
+        ref='DESIGN.md §4 C17', technique='Lean 4 proof + model/implementation correspondence'),
 }
 
 ALL = ['C%02d' % i for i in range(1, 21)]
